@@ -61,6 +61,17 @@ class LinDom(alg.Alg):
             self.facts.append(fm.le((2 ** s) * q, a))
             self.facts.append(fm.lt(a, (2 ** s) * (q + 1)))
             return q
+        if ty.is_int and op == 'udiv' and self.concrete(b) is not None and self.concrete(a) is None and 0 < self.concrete(b) <= 4096:
+            # q = x / c (unsigned, constant divisor): c q <= x < c (q+1)
+            c = self.concrete(b)
+            try:
+                f1, f2 = fm.le(c * sp.Symbol('q__'), a), fm.lt(a, c * (sp.Symbol('q__') + 1))
+            except fm.NonLinear:
+                return alg.Alg.binop(self, op, a, b, ty)
+            q = self.fresh('q', nonnegative=True)
+            self.facts.append(fm.le(c * q, a))
+            self.facts.append(fm.lt(a, c * (q + 1)))
+            return q
         return alg.Alg.binop(self, op, a, b, ty)
 
     facts = None
